@@ -107,6 +107,21 @@ def f(xs):
         out.append(x)
     return out
 ''',
+    'del_last_item': '''
+def f(xs):
+    out = []
+    keep = list(xs)
+    for x in xs:
+        if x == 'q':
+            if len(out) > (1 if (out and not out[0]) else 0):
+                del out[-1]
+        elif x == 'r':
+            del out[-1]
+            del keep[-1]
+        else:
+            out.append(x)
+    return out + keep
+''',
     'constant_tests': '''
 DEBUG = False
 def f(xs):
@@ -237,6 +252,45 @@ def f(xs):
         return xs
     return []
 ''', 'call:isinstance'),
+    'del_last_of_parameter': ('''
+def f(xs):
+    del xs[-1]
+    return xs
+''', 'del:xs'),
+    'del_last_of_non_list': ('''
+def f(xs):
+    d = []
+    d = {-1: 'p'}
+    del d[-1]
+    return list(d)
+''', 'del:d'),
+    'del_last_of_loop_variable': ('''
+def f(xs):
+    out = []
+    for out in xs:
+        pass
+    del out[-1]
+    return []
+''', 'del:out'),
+    'del_other_index': ('''
+def f(xs):
+    out = list(xs)
+    del out[-2]
+    return out
+''', 'del:out'),
+    'del_last_slice': ('''
+def f(xs):
+    out = list(xs)
+    del out[-1:]
+    return out
+''', 'del:out'),
+    'del_last_list_rebound': ('''
+list = dict
+def f(xs):
+    out = list()
+    del out[-1]
+    return []
+''', 'del:out'),
     'isinstance_rebound_builtin': ('''
 list = dict
 def f(xs):
@@ -273,6 +327,10 @@ def _has(fdef, what):
         if kind == 'name' and isinstance(n, ast.Name) and n.id == name and isinstance(n.ctx, ast.Load):
             return True
         if kind == 'call' and isinstance(n, ast.Call) and isinstance(n.func, ast.Name) and n.func.id == name:
+            return True
+        if kind == 'del' and isinstance(n, ast.Delete) and any(
+                isinstance(t, ast.Subscript) and isinstance(t.value, ast.Name) and t.value.id == name
+                for t in n.targets):
             return True
     return False
 
